@@ -62,6 +62,79 @@ theorem description_site_partial (d : String) (h : DocSafe d) :
     (descriptionSite d).faithful = true := by
   simp [StringSite.faithful, descriptionSite, description_safe d h]
 
+/-- `repr(str)` — which is what list formatting applies to enum values, `_required` names and
+    list/dict defaults — is faithful for EVERY string (all characters, whatever `str.isprintable`
+    answers): these sites cannot break the generated source -/
+theorem repr_safe (pr : Char → Bool) (s : String) : pyLexStr (pyRepr pr s) = some s := by
+  simp only [pyLexStr, pyRepr, String.toList_ofList, lexSrc_pyReprL, Option.map_some,
+    String.ofList_toList]
+
+mutual
+theorem reprSites_faithful (pr : Char → Bool) (site : String) :
+    ∀ (v : PyVal) (x : StringSite), x ∈ reprSites pr site v → x.faithful = true
+  | .str s, x, hx => by
+    simp only [reprSites, List.mem_singleton] at hx
+    subst hx
+    simp [StringSite.faithful, repr_safe]
+  | .list xs, x, hx => reprSitesL_faithful pr site xs x (by simpa [reprSites] using hx)
+  | .dict kvs, x, hx => reprSitesKV_faithful pr site kvs x (by simpa [reprSites] using hx)
+  | .none, _, hx => by simp [reprSites] at hx
+  | .bool _, _, hx => by simp [reprSites] at hx
+  | .int _, _, hx => by simp [reprSites] at hx
+  | .float _, _, hx => by simp [reprSites] at hx
+  | .dec _, _, hx => by simp [reprSites] at hx
+  | .tuple _, _, hx => by simp [reprSites] at hx
+  | .set _ _, _, hx => by simp [reprSites] at hx
+  | .deque _, _, hx => by simp [reprSites] at hx
+  | .enumv _ _, _, hx => by simp [reprSites] at hx
+  | .inst _ _, _, hx => by simp [reprSites] at hx
+  | .opaque _, _, hx => by simp [reprSites] at hx
+theorem reprSitesL_faithful (pr : Char → Bool) (site : String) :
+    ∀ (xs : List PyVal) (x : StringSite), x ∈ reprSitesL pr site xs → x.faithful = true
+  | [], _, hx => by simp [reprSitesL] at hx
+  | v :: vs, x, hx => by
+    simp only [reprSitesL, List.mem_append] at hx
+    rcases hx with hx | hx
+    · exact reprSites_faithful pr site v x hx
+    · exact reprSitesL_faithful pr site vs x hx
+theorem reprSitesKV_faithful (pr : Char → Bool) (site : String) :
+    ∀ (kvs : List (PyVal × PyVal)) (x : StringSite), x ∈ reprSitesKV pr site kvs → x.faithful = true
+  | [], _, hx => by simp [reprSitesKV] at hx
+  | (k, v) :: rest, x, hx => by
+    simp only [reprSitesKV, List.mem_append] at hx
+    rcases hx with (hx | hx) | hx
+    · exact reprSites_faithful pr site k x hx
+    · exact reprSites_faithful pr site v x hx
+    · exact reprSitesKV_faithful pr site rest x hx
+end
+
+/-- enum members of any type and nesting never produce a broken literal (so there is no
+    `unescaped:enum` finding: the expected defect does not exist for this site) -/
+theorem enum_site_faithful (pr : Char → Bool) (vs : List PyVal) :
+    ∀ x ∈ stringSites pr (.enum vs), x.faithful = true := by
+  intro x hx
+  exact reprSitesL_faithful pr "enum" vs x (by simpa [stringSites] using hx)
+
+/-- the `_required = [...]` list never produces a broken literal -/
+theorem required_site_faithful (pr : Char → Bool) (names : List String) :
+    ∀ x ∈ namesSites pr names, x.faithful = true := by
+  induction names with
+  | nil => intro x hx; simp [namesSites] at hx
+  | cons n r ih =>
+    intro x hx
+    simp only [namesSites, List.mem_cons] at hx
+    rcases hx with rfl | hx
+    · simp [StringSite.faithful, repr_safe]
+    · exact ih x hx
+
+/-- a list / dict default (emitted as `lambda: <repr>`) never produces a broken literal -/
+theorem default_repr_site_faithful (pr : Char → Bool) (v : PyVal) (h : ∀ s, v ≠ .str s) :
+    ∀ x ∈ defaultSites pr v, x.faithful = true := by
+  intro x hx
+  cases v with
+  | str s => exact absurd rfl (h s)
+  | _ => exact reprSites_faithful pr "default-repr" _ x (by simpa [defaultSites] using hx)
+
 /-! ### kernel-checked counterexamples (known findings `unescaped:<site>`) -/
 
 /-- `'` in a pattern: the emitted literal closes early (the source does not compile) -/
